@@ -40,7 +40,7 @@ def seeded(ctx, n):
                 last = k == nat - 1
                 scripts.append({"status": rng.choice([200, 200, 204, 304, 404, 0]) if last else 502,
                                 "writes": chunks if last or rng.random() < 0.5 else [memr + 2],
-                                "cl0": last and rng.random() < 0.15, "grpc": last and rng.random() < 0.1, "read": "all", "mut": "none",
+                                "cl0": last and rng.random() < 0.15, "grpc": last and rng.random() < 0.1, "read": rng.choice(["all", "all", "copy"]), "via": rng.choice(["write", "write", "copy"]), "mut": "none",
                                 "panic": last and rng.random() < 0.12})      # the final attempt aborts after its writes
             steps.append({"method": rng.choice(["GET", "POST", "HEAD", "PUT"]), "framing": rng.choice(["declared", "chunked", "unknown"]),
                           "size": size, "hdrs": ["X-A"], "scripts": scripts})
